@@ -43,6 +43,7 @@ var engineBProps = map[string]*engineB{
 	"C10": {design: "4/C10"},
 	"C11": {design: "4/C11"},
 	"C12": {design: "4/C12"},
+	"C13": {design: "4/C13", fine: []string{"bus/signal.go", "bus/proxy.go", "bus/client.go"}},
 	"C17": {design: "4/C17"},
 }
 
